@@ -2,6 +2,10 @@ import CryoCat.Lemmas.C12
 import CryoCat.Lemmas.C12_Grid
 import CryoCat.Lemmas.C12_Round
 import CryoCat.Lemmas.C12_Op
+import CryoCat.Lemmas.C12_Tail
+import CryoCat.Lemmas.C12_Mono
+import CryoCat.Lemmas.C12_DftComplex
+import CryoCat.Lemmas.C12_DftGrid
 /-! C12 — property theorems: the Fourier filters are the documented radial low/high/band-pass gains.
 
 Reading guide (statement clause → theorem):
@@ -11,11 +15,18 @@ Reading guide (statement clause → theorem):
   frequency radius → `freq_spec`, `hard_gain`, `hard_gain_even`
 * Gaussian edge: gain in [0,1], 1 inside, 0 outside → `soft_gain_range`, `soft_gain_one`,
   `soft_gain_zero`, `soft_gain_tail` (the literal margins `4σ+1` and "non-increasing in between"
-  are NOT proved: `SoftEdgeFull` below states them; see `soft_gain_*_partial` remarks)
+  in full generality are NOT proved: `SoftEdgeFull` below states them; what IS proved of them is listed further down)
 * high-pass = complement, band-pass = difference → `highpass_complement`, `bandpass_difference`,
   `high_gain_range`, `band_gain_range_nested`
 * resolution → `res2pix_round`, `roundRat_nearest_even`, `filter_radius_*`
-* executable arrays = these functions → `lowGain_grid`, `highGain_grid`, `bandGain_grid`, `effGain_grid` -/
+* executable arrays = these functions → `lowGain_grid`, `highGain_grid`, `bandGain_grid`, `effGain_grid`
+* soft-edge margins in the strongest true form → `soft_gain_inside`, `soft_gain_outside` (bounds by the kernel tail
+  `tail3`), `soft_margin_checked` (what the driver evaluates), `soft_tail_reach_zero` (`tail(√3·t) = 0`),
+  `soft_edge_margins_partial`, `soft_edge_exact_beyond_reach`, `soft_edge_full_false_below_reach`
+* non-increasing along lines parallel to the axes → `soft_gain_mono_axis_x/y/z`, `soft_edge_monotone_axes_partial`,
+  `model_kernel_unimodal`
+* the transform inside the model → `dft_is_transform`, `dft1_inversion`, `dft_is_transform_complex`,
+  `lowpass_grid`, `highpass_grid`, `bandpass_grid` (the driver's `filter` op executes these operators) -/
 namespace CryoCat.C12
 open Gen.C12
 
@@ -203,6 +214,122 @@ theorem soft_gain_tail (ker : List (Int × K)) (t : Nat) (hk : ValidKernel t ker
   simp only [sphere]
   split_ifs <;> simp
 
+/-- **soft-edge margin, inside — strongest form.** For a frequency of squared integer radius `≤ A` and a
+squared reach `m` with `√A + √m ≤ r` (written without square roots: `A + m ≤ r²` and
+`4·A·m ≤ (r² − A − m)²`) the gain is at least `1 − tail3 ker m`, where `tail3 ker m` is the weight the
+separable kernel carries at offsets of squared Euclidean length `> m`. Holds for every non-negative
+unit-sum kernel, every box (also where `mode='nearest'` clamps at a face), every cutoff `r ≥ 0`. -/
+theorem soft_gain_inside (ker : List (Int × K)) (t : Nat) (hk : ValidKernel t ker) (d : Dims)
+    (hd : 0 < d.nx ∧ 0 < d.ny ∧ 0 < d.nz) (r : Int) (hr : 0 ≤ r) (A m : Int) (j k l : Int)
+    (hA : freqRadius2 d j k l ≤ A) (h1 : A + m ≤ r * r) (h2 : 4 * (A * m) ≤ (r * r - A - m) * (r * r - A - m)) :
+    1 - tail3 ker m ≤ lowGainFn (some ker) d r j k l := by
+  have hb := shift_inbox d j k l hd
+  have ht := (soft_gain_tail ker t hk d hd r j k l).1
+  have hle : blur3Fn ker d (fun x y z => if inBall d r x y z then (0 : K) else 1) (shiftIdx d.nx j) (shiftIdx d.ny k) (shiftIdx d.nz l)
+      ≤ tail3 ker m := by
+    apply blur3_le_tail ker hk.nonneg
+    · intro a b c; split_ifs
+      · exact zero_le_one
+      · exact le_refl _
+    · intro qx qy qz hq
+      set X := shiftIdx d.nx j; set Y := shiftIdx d.ny k; set Z := shiftIdx d.nz l
+      have ox := clampI_off_sq d.nx X qx hb.1
+      have oy := clampI_off_sq d.ny Y qy hb.2.1
+      have oz := clampI_off_sq d.nz Z qz hb.2.2
+      have hin : inBall d r (clampI d.nx (X + qx)) (clampI d.ny (Y + qy)) (clampI d.nz (Z + qz)) = true := by
+        rw [inBall_iff d r hr]
+        have := reach_inside (X - centre d.nx) (Y - centre d.ny) (Z - centre d.nz)
+          (clampI d.nx (X + qx) - X) (clampI d.ny (Y + qy) - Y) (clampI d.nz (Z + qz) - Z) A m r hA (by linarith) h1 h2
+        have e : dist2 d (clampI d.nx (X + qx)) (clampI d.ny (Y + qy)) (clampI d.nz (Z + qz))
+            = (X - centre d.nx + (clampI d.nx (X + qx) - X)) * (X - centre d.nx + (clampI d.nx (X + qx) - X))
+            + (Y - centre d.ny + (clampI d.ny (Y + qy) - Y)) * (Y - centre d.ny + (clampI d.ny (Y + qy) - Y))
+            + (Z - centre d.nz + (clampI d.nz (Z + qz) - Z)) * (Z - centre d.nz + (clampI d.nz (Z + qz) - Z)) := by
+          unfold dist2; ring
+        rw [e]; exact this
+      rw [if_pos hin]
+  linarith
+
+/-- **soft-edge margin, outside — strongest form.** For a frequency of squared integer radius `≥ A` and a
+squared reach `m` with `√A > r + √m` (`r² + m < A` and `4·r²·m < (A − r² − m)²`) the gain is at most
+`tail3 ker m`. -/
+theorem soft_gain_outside (ker : List (Int × K)) (t : Nat) (hk : ValidKernel t ker) (d : Dims)
+    (hd : 0 < d.nx ∧ 0 < d.ny ∧ 0 < d.nz) (r : Int) (hr : 0 ≤ r) (A m : Int) (j k l : Int)
+    (hA : A ≤ freqRadius2 d j k l) (h1 : r * r + m < A) (h2 : 4 * (r * r * m) < (A - r * r - m) * (A - r * r - m)) :
+    lowGainFn (some ker) d r j k l ≤ tail3 ker m := by
+  have hb := shift_inbox d j k l hd
+  rw [(soft_gain_tail ker t hk d hd r j k l).2]
+  apply blur3_le_tail ker hk.nonneg
+  · intro a b c; split_ifs
+    · exact le_refl _
+    · exact zero_le_one
+  · intro qx qy qz hq
+    set X := shiftIdx d.nx j; set Y := shiftIdx d.ny k; set Z := shiftIdx d.nz l
+    have ox := clampI_off_sq d.nx X qx hb.1
+    have oy := clampI_off_sq d.ny Y qy hb.2.1
+    have oz := clampI_off_sq d.nz Z qz hb.2.2
+    have hout : ¬ inBall d r (clampI d.nx (X + qx)) (clampI d.ny (Y + qy)) (clampI d.nz (Z + qz)) = true := by
+      rw [inBall_iff d r hr]
+      have := reach_outside (X - centre d.nx) (Y - centre d.ny) (Z - centre d.nz)
+        (clampI d.nx (X + qx) - X) (clampI d.ny (Y + qy) - Y) (clampI d.nz (Z + qz) - Z) A m r hA (by linarith) h1 h2
+      have e : dist2 d (clampI d.nx (X + qx)) (clampI d.ny (Y + qy)) (clampI d.nz (Z + qz))
+          = (X - centre d.nx + (clampI d.nx (X + qx) - X)) * (X - centre d.nx + (clampI d.nx (X + qx) - X))
+          + (Y - centre d.ny + (clampI d.ny (Y + qy) - Y)) * (Y - centre d.ny + (clampI d.ny (Y + qy) - Y))
+          + (Z - centre d.nz + (clampI d.nz (Z + qz) - Z)) * (Z - centre d.nz + (clampI d.nz (Z + qz) - Z)) := by
+        unfold dist2; ring
+      rw [e]; exact this
+    rw [if_neg hout]
+
+/-- what the driver evaluates per DFT bin (`fitsInside` / `fitsOutside` on the bin's squared radius) and
+hands to the harness together with `tail3`: where the flag is set, the bound holds -/
+theorem soft_margin_checked (ker : List (Int × K)) (t : Nat) (hk : ValidKernel t ker) (d : Dims)
+    (hd : 0 < d.nx ∧ 0 < d.ny ∧ 0 < d.nz) (r : Int) (hr : 0 ≤ r) (m : Int) (j k l : Int) :
+    (fitsInside (freqRadius2 d j k l) m r = true → 1 - tail3 ker m ≤ lowGainFn (some ker) d r j k l) ∧
+    (fitsOutside (freqRadius2 d j k l) m r = true → lowGainFn (some ker) d r j k l ≤ tail3 ker m) := by
+  constructor
+  · intro h
+    simp only [fitsInside, Bool.and_eq_true, decide_eq_true_eq] at h
+    exact soft_gain_inside ker t hk d hd r hr _ m j k l (le_refl _) h.1 h.2
+  · intro h
+    simp only [fitsOutside, Bool.and_eq_true, decide_eq_true_eq] at h
+    exact soft_gain_outside ker t hk d hd r hr _ m j k l (le_refl _) h.1 h.2
+
+/-- the margins in the statement's wording, integer margin `s`: radius `≤ cutoff − s` ⇒ gain `≥ 1 − `(weight
+at offsets longer than `s`) … -/
+theorem soft_gain_inside_margin (ker : List (Int × K)) (t : Nat) (hk : ValidKernel t ker) (d : Dims)
+    (hd : 0 < d.nx ∧ 0 < d.ny ∧ 0 < d.nz) (r ρ s : Int) (hρ : 0 ≤ ρ) (hs : 0 ≤ s) (j k l : Int)
+    (hin : freqRadius2 d j k l ≤ ρ * ρ) (hfit : ρ + s ≤ r) :
+    1 - tail3 ker (s * s) ≤ lowGainFn (some ker) d r j k l := by
+  have hρs : 0 ≤ ρ * s := mul_nonneg hρ hs
+  have hsq : (ρ + s) * (ρ + s) ≤ r * r := mul_self_le_mul_self (by omega) hfit
+  apply soft_gain_inside ker t hk d hd r (by omega) (ρ * ρ) (s * s) j k l hin
+  · nlinarith
+  · have h2 : 2 * (ρ * s) ≤ r * r - ρ * ρ - s * s := by nlinarith
+    have := mul_self_le_mul_self (by linarith : (0 : Int) ≤ 2 * (ρ * s)) h2
+    nlinarith
+
+/-- … and radius `≥ cutoff + s` ⇒ gain `≤` weight at offsets of length `≥ s` (squared length `> s² − 1`) -/
+theorem soft_gain_outside_margin (ker : List (Int × K)) (t : Nat) (hk : ValidKernel t ker) (d : Dims)
+    (hd : 0 < d.nx ∧ 0 < d.ny ∧ 0 < d.nz) (r ρ s : Int) (hr : 0 ≤ r) (hs : 0 ≤ s) (j k l : Int)
+    (hout : ρ * ρ ≤ freqRadius2 d j k l) (hfar : r + s ≤ ρ) :
+    lowGainFn (some ker) d r j k l ≤ tail3 ker (s * s - 1) := by
+  have hrs : 0 ≤ r * s := mul_nonneg hr hs
+  have hsq : (r + s) * (r + s) ≤ ρ * ρ := mul_self_le_mul_self (by omega) hfar
+  apply soft_gain_outside ker t hk d hd r hr (ρ * ρ) (s * s - 1) j k l hout
+  · nlinarith
+  · have h2 : 2 * (r * s) + 1 ≤ ρ * ρ - r * r - (s * s - 1) := by nlinarith
+    have := mul_self_le_mul_self (by linarith : (0 : Int) ≤ 2 * (r * s) + 1) h2
+    nlinarith [mul_self_nonneg r]
+
+/-- **`tail(√3·t) = 0`**: the kernel cube of per-axis support `t` has no offset longer than `√3·t`, so beyond
+that reach the bounds above are the exact plateaus 1 and 0 (`soft_gain_one`, `soft_gain_zero`) -/
+theorem soft_tail_reach_zero (ker : List (Int × K)) (t : Nat) (hk : ValidKernel t ker) (m : Int)
+    (h : 3 * ((t : Int) * (t : Int)) ≤ m) : tail3 ker m = 0 := tail3_zero ker t hk.within m h
+
+/-- the tail weight is a weight: in `[0,1]`, and it shrinks as the reach grows -/
+theorem soft_tail_range (ker : List (Int × K)) (t : Nat) (hk : ValidKernel t ker) (m m' : Int) (h : m ≤ m') :
+    0 ≤ tail3 ker m' ∧ tail3 ker m' ≤ tail3 ker m ∧ tail3 ker m ≤ 1 :=
+  ⟨tail3_nonneg ker hk.nonneg m', tail3_antitone ker hk.nonneg m m' h, tail3_le_one ker hk.nonneg hk.unit m⟩
+
 /-- a larger cutoff never lowers the gain (same kernel) -/
 theorem soft_gain_mono_cutoff (ker : Option (List (Int × K))) (t : Nat) (hk : ∀ k' ∈ ker, ValidKernel t k') (d : Dims)
     (hd : 0 < d.nx ∧ 0 < d.ny ∧ 0 < d.nz) (r r' : Int) (hr : 0 ≤ r) (hrr : r ≤ r') (j k l : Int) :
@@ -299,6 +426,173 @@ def SoftEdgeFull {K : Type} [Field K] [LinearOrder K] [IsStrictOrderedRing K]
   (∀ j k l ρ : Int, 0 ≤ ρ → freqRadius2 d j k l ≤ ρ * ρ → ρ ≤ r - fourSigmaPlusOne → lowGainFn (some ker) d r j k l = 1) ∧
   (∀ j k l ρ : Int, ρ * ρ ≤ freqRadius2 d j k l → r + fourSigmaPlusOne ≤ ρ → lowGainFn (some ker) d r j k l = 0) ∧
   (∀ j k l m : Int, 0 ≤ m → lowGainFn (some ker) d r ((m + 1) * j) ((m + 1) * k) ((m + 1) * l) ≤ lowGainFn (some ker) d r (m * j) (m * k) (m * l))
+
+section softedge
+set_option linter.unusedSectionVars false
+variable {K : Type} [Field K] [LinearOrder K] [IsStrictOrderedRing K]
+
+/-- the two margin clauses of `SoftEdgeFull` in the form that IS true for every valid kernel: `= 1` becomes
+`≥ 1 − tail3 ker M²` (weight at offsets longer than the margin `M`), `= 0` becomes `≤ tail3 ker (M² − 1)`
+(weight at offsets at least as long as `M`). The harness uses exactly these two numbers, evaluated by the
+driver on the executed kernel, as the tolerance of the margin clauses. -/
+theorem soft_edge_margins_partial (ker : List (Int × K)) (t : Nat) (hk : ValidKernel t ker) (d : Dims)
+    (hd : 0 < d.nx ∧ 0 < d.ny ∧ 0 < d.nz) (r M : Int) (hr : 0 ≤ r) (hM : 0 ≤ M) :
+    (∀ j k l ρ : Int, 0 ≤ ρ → freqRadius2 d j k l ≤ ρ * ρ → ρ ≤ r - M →
+        1 - tail3 ker (M * M) ≤ lowGainFn (some ker) d r j k l ∧ lowGainFn (some ker) d r j k l ≤ 1) ∧
+    (∀ j k l ρ : Int, ρ * ρ ≤ freqRadius2 d j k l → r + M ≤ ρ →
+        0 ≤ lowGainFn (some ker) d r j k l ∧ lowGainFn (some ker) d r j k l ≤ tail3 ker (M * M - 1)) :=
+  ⟨fun j k l ρ hρ hin hfit =>
+      ⟨soft_gain_inside_margin ker t hk d hd r ρ M hρ hM j k l hin (by omega), (soft_gain_range ker t hk d hd r j k l).2⟩,
+   fun j k l ρ hout hfar =>
+      ⟨(soft_gain_range ker t hk d hd r j k l).1, soft_gain_outside_margin ker t hk d hd r ρ M hr hM j k l hout hfar⟩⟩
+
+/-- … and they hold literally (`= 1`, `= 0`) as soon as the margin exceeds the kernel's reach `√3·t` -/
+theorem soft_edge_exact_beyond_reach (ker : List (Int × K)) (t : Nat) (hk : ValidKernel t ker) (d : Dims)
+    (hd : 0 < d.nx ∧ 0 < d.ny ∧ 0 < d.nz) (r M : Int) (hr : 0 ≤ r) (hM : 0 ≤ M)
+    (hreach : 3 * ((t : Int) * (t : Int)) ≤ M * M - 1) :
+    (∀ j k l ρ : Int, 0 ≤ ρ → freqRadius2 d j k l ≤ ρ * ρ → ρ ≤ r - M → lowGainFn (some ker) d r j k l = 1) ∧
+    (∀ j k l ρ : Int, ρ * ρ ≤ freqRadius2 d j k l → r + M ≤ ρ → lowGainFn (some ker) d r j k l = 0) := by
+  have hp := soft_edge_margins_partial ker t hk d hd r M hr hM
+  have z1 := soft_tail_reach_zero ker t hk (M * M) (by omega)
+  have z2 := soft_tail_reach_zero ker t hk (M * M - 1) hreach
+  constructor
+  · intro j k l ρ h0 hin hfit
+    have := hp.1 j k l ρ h0 hin hfit
+    rw [z1] at this
+    exact le_antisymm this.2 (by linarith [this.1])
+  · intro j k l ρ hout hfar
+    have := hp.2 j k l ρ hout hfar
+    rw [z2] at this
+    exact le_antisymm this.2 this.1
+end softedge
+
+section monotone
+set_option linter.unusedSectionVars false
+variable {K : Type} [Field K] [LinearOrder K] [IsStrictOrderedRing K]
+
+/-- **non-increasing along lines parallel to the x axis, moving away from the centre plane** — for every
+kernel with non-negative, unit-sum weights that are symmetric and non-increasing in `|offset|`
+(`UnimodalKernel`; the model's Gaussian kernel is one: `model_kernel_unimodal`), every box and every
+position of the other two indices. Towards higher frequencies if the ball does not touch the upper face of the
+mask box along this axis (`⌊n/2⌋ + r + 1 < n`), towards lower (more negative) ones if it does not touch the
+lower face (`r < ⌊n/2⌋`); where it touches, `mode='nearest'` continues the mask with ones and the raw gain can
+rise by a tail weight (seen on the executed model). -/
+theorem soft_gain_mono_axis_x (ker : List (Int × K)) (hk : UnimodalKernel ker) (d : Dims)
+    (hd : 0 < d.nx ∧ 0 < d.ny ∧ 0 < d.nz) (r : Int) (hr : 0 ≤ r) (j k l i' : Int) :
+    (centre d.nx + r + 1 < (d.nx : Int) → 0 ≤ freq d.nx j → freq d.nx i' = freq d.nx j + 1 →
+        lowGainFn (some ker) d r i' k l ≤ lowGainFn (some ker) d r j k l) ∧
+    (r < centre d.nx → freq d.nx j ≤ 0 → freq d.nx i' = freq d.nx j - 1 →
+        lowGainFn (some ker) d r i' k l ≤ lowGainFn (some ker) d r j k l) := by
+  have hm := mask_step_x ker hk d hd.1 r hr (shiftIdx d.nx j) (shiftIdx d.ny k) (shiftIdx d.nz l)
+  simp only [lowGainFn, shiftVol, lowMaskFn]
+  constructor
+  · intro hface h0 hstep
+    have e : shiftIdx d.nx i' = shiftIdx d.nx j + 1 := by unfold freq at hstep; omega
+    rw [e]
+    exact hm.1 hface (by unfold freq at h0; omega)
+  · intro hface h0 hstep
+    have e : shiftIdx d.nx i' = shiftIdx d.nx j - 1 := by unfold freq at hstep; omega
+    rw [e]
+    exact hm.2 hface (by unfold freq at h0; omega)
+
+/-- **non-increasing along lines parallel to the y axis, moving away from the centre plane** — for every
+kernel with non-negative, unit-sum weights that are symmetric and non-increasing in `|offset|`
+(`UnimodalKernel`; the model's Gaussian kernel is one: `model_kernel_unimodal`), every box and every
+position of the other two indices. Towards higher frequencies if the ball does not touch the upper face of the
+mask box along this axis (`⌊n/2⌋ + r + 1 < n`), towards lower (more negative) ones if it does not touch the
+lower face (`r < ⌊n/2⌋`); where it touches, `mode='nearest'` continues the mask with ones and the raw gain can
+rise by a tail weight (seen on the executed model). -/
+theorem soft_gain_mono_axis_y (ker : List (Int × K)) (hk : UnimodalKernel ker) (d : Dims)
+    (hd : 0 < d.nx ∧ 0 < d.ny ∧ 0 < d.nz) (r : Int) (hr : 0 ≤ r) (j k l i' : Int) :
+    (centre d.ny + r + 1 < (d.ny : Int) → 0 ≤ freq d.ny k → freq d.ny i' = freq d.ny k + 1 →
+        lowGainFn (some ker) d r j i' l ≤ lowGainFn (some ker) d r j k l) ∧
+    (r < centre d.ny → freq d.ny k ≤ 0 → freq d.ny i' = freq d.ny k - 1 →
+        lowGainFn (some ker) d r j i' l ≤ lowGainFn (some ker) d r j k l) := by
+  have hm := mask_step_y ker hk d hd.2.1 r hr (shiftIdx d.nx j) (shiftIdx d.ny k) (shiftIdx d.nz l)
+  simp only [lowGainFn, shiftVol, lowMaskFn]
+  constructor
+  · intro hface h0 hstep
+    have e : shiftIdx d.ny i' = shiftIdx d.ny k + 1 := by unfold freq at hstep; omega
+    rw [e]
+    exact hm.1 hface (by unfold freq at h0; omega)
+  · intro hface h0 hstep
+    have e : shiftIdx d.ny i' = shiftIdx d.ny k - 1 := by unfold freq at hstep; omega
+    rw [e]
+    exact hm.2 hface (by unfold freq at h0; omega)
+
+/-- **non-increasing along lines parallel to the z axis, moving away from the centre plane** — for every
+kernel with non-negative, unit-sum weights that are symmetric and non-increasing in `|offset|`
+(`UnimodalKernel`; the model's Gaussian kernel is one: `model_kernel_unimodal`), every box and every
+position of the other two indices. Towards higher frequencies if the ball does not touch the upper face of the
+mask box along this axis (`⌊n/2⌋ + r + 1 < n`), towards lower (more negative) ones if it does not touch the
+lower face (`r < ⌊n/2⌋`); where it touches, `mode='nearest'` continues the mask with ones and the raw gain can
+rise by a tail weight (seen on the executed model). -/
+theorem soft_gain_mono_axis_z (ker : List (Int × K)) (hk : UnimodalKernel ker) (d : Dims)
+    (hd : 0 < d.nx ∧ 0 < d.ny ∧ 0 < d.nz) (r : Int) (hr : 0 ≤ r) (j k l i' : Int) :
+    (centre d.nz + r + 1 < (d.nz : Int) → 0 ≤ freq d.nz l → freq d.nz i' = freq d.nz l + 1 →
+        lowGainFn (some ker) d r j k i' ≤ lowGainFn (some ker) d r j k l) ∧
+    (r < centre d.nz → freq d.nz l ≤ 0 → freq d.nz i' = freq d.nz l - 1 →
+        lowGainFn (some ker) d r j k i' ≤ lowGainFn (some ker) d r j k l) := by
+  have hm := mask_step_z ker hk d hd.2.2 r hr (shiftIdx d.nx j) (shiftIdx d.ny k) (shiftIdx d.nz l)
+  simp only [lowGainFn, shiftVol, lowMaskFn]
+  constructor
+  · intro hface h0 hstep
+    have e : shiftIdx d.nz i' = shiftIdx d.nz l + 1 := by unfold freq at hstep; omega
+    rw [e]
+    exact hm.1 hface (by unfold freq at h0; omega)
+  · intro hface h0 hstep
+    have e : shiftIdx d.nz i' = shiftIdx d.nz l - 1 := by unfold freq at hstep; omega
+    rw [e]
+    exact hm.2 hface (by unfold freq at h0; omega)
+
+/-- the third clause of `SoftEdgeFull` along the three coordinate axis rays from the centre (DFT bins
+`m·e`, `m = 0, 1, …` up to the last non-negative frequency), in the form that IS proved: for a cutoff whose
+ball stays off the upper faces of the mask box -/
+theorem soft_edge_monotone_axes_partial (ker : List (Int × K)) (hk : UnimodalKernel ker) (d : Dims)
+    (hd : 0 < d.nx ∧ 0 < d.ny ∧ 0 < d.nz) (r : Int) (hr : 0 ≤ r) (m : Int) (hm : 0 ≤ m) :
+    (centre d.nx + r + 1 < (d.nx : Int) → m + 1 < (d.nx : Int) - centre d.nx →
+        lowGainFn (some ker) d r ((m + 1) * 1) ((m + 1) * 0) ((m + 1) * 0) ≤ lowGainFn (some ker) d r (m * 1) (m * 0) (m * 0)) ∧
+    (centre d.ny + r + 1 < (d.ny : Int) → m + 1 < (d.ny : Int) - centre d.ny →
+        lowGainFn (some ker) d r ((m + 1) * 0) ((m + 1) * 1) ((m + 1) * 0) ≤ lowGainFn (some ker) d r (m * 0) (m * 1) (m * 0)) ∧
+    (centre d.nz + r + 1 < (d.nz : Int) → m + 1 < (d.nz : Int) - centre d.nz →
+        lowGainFn (some ker) d r ((m + 1) * 0) ((m + 1) * 0) ((m + 1) * 1) ≤ lowGainFn (some ker) d r (m * 0) (m * 0) (m * 1)) := by
+  have fq : ∀ (n : Nat), 0 < n → ∀ a : Int, 0 ≤ a → a < (n : Int) - centre n → freq n a = a := by
+    intro n hn a h0 h1
+    exact freq_unique n hn a a (by have := centre_nonneg n; omega) h1 ⟨0, by ring⟩
+  simp only [mul_one, mul_zero]
+  refine ⟨fun hface hlt => ?_, fun hface hlt => ?_, fun hface hlt => ?_⟩
+  · have := (soft_gain_mono_axis_x ker hk d hd r hr m 0 0 (m + 1)).1 hface
+    rw [fq d.nx hd.1 m hm (by omega), fq d.nx hd.1 (m + 1) (by omega) hlt] at this
+    exact this hm rfl
+  · have := (soft_gain_mono_axis_y ker hk d hd r hr 0 m 0 (m + 1)).1 hface
+    rw [fq d.ny hd.2.1 m hm (by omega), fq d.ny hd.2.1 (m + 1) (by omega) hlt] at this
+    exact this hm rfl
+  · have := (soft_gain_mono_axis_z ker hk d hd r hr 0 0 m (m + 1)).1 hface
+    rw [fq d.nz hd.2.2 m hm (by omega), fq d.nz hd.2.2 (m + 1) (by omega) hlt] at this
+    exact this hm rfl
+
+/-- the kernel the driver builds is symmetric and unimodal for every positive, monotone `exp` (with the
+integer cast as `ofI`), so the monotonicity theorems apply to the executed model -/
+theorem model_kernel_unimodal [BEq K] (expf : K → K) (hexp : ∀ x, 0 < expf x) (hmono : ∀ x y, x ≤ y → expf x ≤ expf y)
+    (trunc : K → Nat) (sigma : K) :
+    ∀ k' ∈ kernelFor expf (fun q => (q : K)) trunc sigma, UnimodalKernel k' := by
+  intro k' hk'
+  unfold kernelFor at hk'
+  split_ifs at hk' with h
+  · cases hk'
+  · cases hk'
+    exact gaussKernel_unimodal expf hexp hmono sigma (trunc sigma)
+end monotone
+
+/-- `SoftEdgeFull` with a margin below the kernel's reach is FALSE in exact arithmetic: kernel
+`(1/4, 1/2, 1/4)` (support 1, reach √3), box 8³, cutoff 1, margin 1: the DC bin lies at radius
+`0 ≤ cutoff − margin` but its gain is 1/2 (only 7 of the 27 kernel offsets stay inside the ball). -/
+theorem soft_edge_full_false_below_reach :
+    ¬ SoftEdgeFull ([(-1, 1/4), (0, 1/2), (1, 1/4)] : List (Int × Rat)) ⟨8, 8, 8⟩ 1 1 := by
+  intro h
+  have h1 := h.1 0 0 0 0 (le_refl _) (by decide) (by decide)
+  revert h1
+  decide +kernel
 
 /-! ### the executed arrays hold these gains -/
 section grids
@@ -438,6 +732,72 @@ theorem bandpass_difference (T : Transform R F Finv re) (kl kh : Option (List (I
 
 end operator
 
+/-! ### the transform pair inside the model: the naive separable DFT the driver executes -/
+section dft
+variable {R C : Type} [Field R] [Field C] [Algebra R C]
+
+/-- **the model's DFT pair `dft3 / idft3` satisfies every `Transform` hypothesis** (additive, homogeneous,
+`idft3 ∘ dft3 = id`, `dft3 ∘ idft3 = id`) over every field that has primitive roots of unity of the three
+edge lengths and in which the edge lengths are invertible — so `filt_add … bandpass_difference` above hold
+for the transform that is executed, no longer for an abstract pair only. -/
+theorem dft_is_transform (d : Dims) (ωx ωy ωz : C) (hx : Root d.nx ωx) (hy : Root d.ny ωy) (hz : Root d.nz ωz)
+    (re : C → C) (hre : RealPart R re) :
+    Transform R (dft3 d (fun m => ωx ^ m) (fun m => ωy ^ m) (fun m => ωz ^ m))
+      (idft3 d (fun m => ωx ^ m) (fun m => ωy ^ m) (fun m => ωz ^ m) (d.nx : C)⁻¹ (d.ny : C)⁻¹ (d.nz : C)⁻¹) re :=
+  dft3_transform d ωx ωy ωz hx hy hz re hre
+
+/-- 1-D inversion, the heart of it: orthogonality of the characters by the geometric sum -/
+theorem dft1_inversion (n : Nat) (ω : C) (h : Root n ω) (x : Int → C) :
+    idft1 n (fun m => ω ^ m) (n : C)⁻¹ (dft1 n (fun m => ω ^ m) x) = x ∧
+    dft1 n (fun m => ω ^ m) (idft1 n (fun m => ω ^ m) (n : C)⁻¹ x) = x :=
+  ⟨dft1_left_inv h x, dft1_right_inv h x⟩
+end dft
+
+/-- **instantiated over ℂ** with numpy's twiddles `exp(-2πi/n)` and `np.real`: for every box the exact complex
+DFT is a `Transform` (the hypotheses are not only consistent — previously witnessed by the identity — but
+met by the transform the filters are written with) -/
+theorem dft_is_transform_complex (d : Dims) (hd : 0 < d.nx ∧ 0 < d.ny ∧ 0 < d.nz) :
+    Transform ℝ (dft3 d (fun m => omegaC d.nx ^ m) (fun m => omegaC d.ny ^ m) (fun m => omegaC d.nz ^ m))
+      (idft3 d (fun m => omegaC d.nx ^ m) (fun m => omegaC d.ny ^ m) (fun m => omegaC d.nz ^ m) (d.nx : ℂ)⁻¹ (d.ny : ℂ)⁻¹ (d.nz : ℂ)⁻¹)
+      reC :=
+  dft3_transform_complex d hd
+
+/-- e.g. with the exact complex DFT: high-pass = `Re x −` low-pass, for every box, kernel and cutoff -/
+theorem highpass_complement_complex (d : Dims) (hd : 0 < d.nx ∧ 0 < d.ny ∧ 0 < d.nz) (ker : Option (List (Int × ℝ))) (r : Int)
+    (x : Idx → ℂ) (i : Idx) :
+    highpass (dft3 d (fun m => omegaC d.nx ^ m) (fun m => omegaC d.ny ^ m) (fun m => omegaC d.nz ^ m))
+        (idft3 d (fun m => omegaC d.nx ^ m) (fun m => omegaC d.ny ^ m) (fun m => omegaC d.nz ^ m) (d.nx : ℂ)⁻¹ (d.ny : ℂ)⁻¹ (d.nz : ℂ)⁻¹)
+        reC ker d r x i
+      = reC (x i) - lowpass (dft3 d (fun m => omegaC d.nx ^ m) (fun m => omegaC d.ny ^ m) (fun m => omegaC d.nz ^ m))
+        (idft3 d (fun m => omegaC d.nx ^ m) (fun m => omegaC d.ny ^ m) (fun m => omegaC d.nz ^ m) (d.nx : ℂ)⁻¹ (d.ny : ℂ)⁻¹ (d.nz : ℂ)⁻¹)
+        reC ker d r x i :=
+  highpass_complement (dft_is_transform_complex d hd) ker d r x i
+
+/-! ### the executed filter arrays are these operators -/
+section filtergrid
+variable {α C : Type} [Add α] [Mul α] [Sub α] [OfNat α 0] [OfNat α 1] [SMul α C] [Add C] [Mul C] [OfNat C 0]
+
+/-- the driver's `filter` op, low-pass: the array it returns holds `lowpass (dft3 …) (idft3 …) re` of the
+input array, voxel by voxel on the box (any number types: `Float`/`Cx Float` in the driver) -/
+theorem lowpass_grid (d : Dims) (twx twy twz : Nat → C) (ix iy iz : C) (re : C → C) (ker : Option (List (Int × α))) (r : Int)
+    (x : Grid C) (i : Idx) (hi : InBoxI d i) :
+    atIdx (filtGrid d twx twy twz ix iy iz re (atIdx (gainGrid d (lowMaskGrid ker d r)).get) x).get i
+      = lowpass (dft3 d twx twy twz) (idft3 d twx twy twz ix iy iz) re ker d r (atIdx x.get) i :=
+  filtGrid_mask d twx twy twz ix iy iz re _ _ (fun a b c h => lowMaskGrid_get ker d r a b c h) x i hi
+
+theorem highpass_grid (d : Dims) (twx twy twz : Nat → C) (ix iy iz : C) (re : C → C) (ker : Option (List (Int × α))) (r : Int)
+    (x : Grid C) (i : Idx) (hi : InBoxI d i) :
+    atIdx (filtGrid d twx twy twz ix iy iz re (atIdx (gainGrid d (highMaskGrid ker d r)).get) x).get i
+      = highpass (dft3 d twx twy twz) (idft3 d twx twy twz ix iy iz) re ker d r (atIdx x.get) i :=
+  filtGrid_mask d twx twy twz ix iy iz re _ _ (fun a b c h => highMaskGrid_get ker d r a b c h) x i hi
+
+theorem bandpass_grid (d : Dims) (twx twy twz : Nat → C) (ix iy iz : C) (re : C → C) (kl kh : Option (List (Int × α))) (lp hp : Int)
+    (x : Grid C) (i : Idx) (hi : InBoxI d i) :
+    atIdx (filtGrid d twx twy twz ix iy iz re (atIdx (gainGrid d (bandMaskGrid kl kh d lp hp)).get) x).get i
+      = bandpass (dft3 d twx twy twz) (idft3 d twx twy twz ix iy iz) re kl kh d lp hp (atIdx x.get) i :=
+  filtGrid_mask d twx twy twz ix iy iz re _ _ (fun a b c h => bandMaskGrid_get kl kh d lp hp a b c h) x i hi
+end filtergrid
+
 /-! ### cutoff from a target resolution -/
 
 /-- `roundRat` (the rounding the model applies to the exact value of `box·px/res`) is round-to-nearest,
@@ -473,6 +833,35 @@ example : ValidKernel 1 ([(-1, 1/4), (0, 1/2), (1, 1/4)] : List (Int × Rat)) :=
    by norm_num [ksum],
    by intro p hp; simp at hp; rcases hp with rfl | rfl | rfl <;> simp⟩
 
+/-- the same kernel is symmetric and unimodal (hypothesis of `soft_gain_mono_axis_*`) -/
+example : UnimodalKernel ([(-1, 1/4), (0, 1/2), (1, 1/4)] : List (Int × Rat)) := by
+  refine ⟨?_, by norm_num [ksum], ?_⟩
+  · intro p hp; simp at hp; rcases hp with rfl | rfl | rfl <;> norm_num
+  · intro a b hab
+    simp only [wt, wsum]
+    have ha : a = 0 ∨ a = 1 ∨ a = -1 ∨ 2 ≤ a ∨ a ≤ -2 := by omega
+    have hb : b = 0 ∨ b = 1 ∨ b = -1 ∨ 2 ≤ b ∨ b ≤ -2 := by omega
+    rcases ha with rfl | rfl | rfl | ha | ha <;> rcases hb with rfl | rfl | rfl | hb | hb <;>
+      first
+      | (exfalso; nlinarith)
+      | (split_ifs <;> first | contradiction | omega | norm_num)
+/-- `soft_gain_inside` hypotheses: cutoff 6, bin radius² = 5, reach² = 12 (√5 + √12 ≈ 5.70 ≤ 6): 5 + 12 ≤ 36 and 4·5·12 = 240 ≤ 19² -/
+example : fitsInside (freqRadius2 ⟨16, 16, 16⟩ 2 1 0) 12 6 = true ∧ fitsInside (freqRadius2 ⟨16, 16, 16⟩ 2 1 0) 15 6 = false := by decide
+/-- `soft_gain_outside` hypotheses: cutoff 3, bin (−7,0,0): radius² = 49, reach² = 15 (3 + √15 ≈ 6.87 < 7) -/
+example : fitsOutside (freqRadius2 ⟨16, 16, 16⟩ 9 0 0) 15 3 = true ∧ fitsOutside (freqRadius2 ⟨16, 16, 16⟩ 9 0 0) 16 3 = false := by decide
+/-- the tail of the kernel (1/4,1/2,1/4)³ beyond squared length 1 is 1/2, beyond 2 it is the 8 corners = 1/8, beyond 3 nothing -/
+example : tail3 ([(-1, 1/4), (0, 1/2), (1, 1/4)] : List (Int × Rat)) 1 = 1/2
+    ∧ tail3 ([(-1, 1/4), (0, 1/2), (1, 1/4)] : List (Int × Rat)) 2 = 1/8
+    ∧ tail3 ([(-1, 1/4), (0, 1/2), (1, 1/4)] : List (Int × Rat)) 3 = 0 := by decide +kernel
+/-- `soft_gain_mono_axis_x` hypotheses: box 16, cutoff 5: 8 + 5 + 1 < 16 and 5 < 8; bins 2 → 3 go up in frequency, 14 → 13 down -/
+example : centre 16 + 5 + 1 < (16 : Int) ∧ (5 : Int) < centre 16 ∧ freq 16 3 = freq 16 2 + 1 ∧ 0 ≤ freq 16 2
+    ∧ freq 16 13 = freq 16 14 - 1 ∧ freq 16 14 ≤ 0 := by decide
+/-- `Root`: −1 is a primitive 2nd root of unity in ℚ, so `dft_is_transform` is not vacuous even over ℚ (boxes 2×2×2, 1×2×1 …) -/
+example : Root 2 (-1 : Rat) := ⟨IsPrimitiveRoot.neg_one 0 (by decide), by decide, by norm_num⟩
+/-- the 2-point DFT of (x₀,x₁) is (x₀+x₁, x₀−x₁), outside 0…1 nothing moves -/
+example : dft1 2 (fun m => (-1 : Rat) ^ m) (fun u => if u = 0 then 3 else if u = 1 then 5 else 7) 1 = -2
+    ∧ dft1 2 (fun m => (-1 : Rat) ^ m) (fun u => if u = 0 then 3 else if u = 1 then 5 else 7) 0 = 8
+    ∧ dft1 2 (fun m => (-1 : Rat) ^ m) (fun u => if u = 0 then 3 else if u = 1 then 5 else 7) 2 = 7 := by decide +kernel
 /-- `soft_gain_one` hypotheses: box 16³, cutoff 6, t = 1, s = 2 (3·1 ≤ 4), bin (2,1,0): radius² = 5 ≤ 3² -/
 example : freqRadius2 ⟨16, 16, 16⟩ 2 1 0 ≤ 3 * 3 ∧ 3 * ((1 : Int) * 1) ≤ 2 * 2 ∧ (3 : Int) + 2 ≤ 6 := by decide
 /-- `soft_gain_zero` hypotheses: same box, cutoff 3, bin (−7,0,0) = DFT index 9: radius² = 49 ≥ 6², 3 + 2 < 6 -/
